@@ -404,3 +404,51 @@ def spines(spine: List[str], alts: List[str], d: int) -> List[List[Any]]:
             seen.add(key)
             uniq.append(o)
     return uniq
+
+
+# --------------------------------------------------------------------------- AST -> fx.Graph emitter
+def to_fx(prog: Dict[str, Any], m: Any) -> Any:
+    """Hand-built FX graph of the program (tier A): parameters are get_attr nodes, every
+    F.* / U.* call of the alphabet is ONE call_function node whose target is the public
+    function object (unit-scaled ops stay leaf calls, as after unit_scale()), everything else
+    is recorded through torch.fx proxies.  No global patching (unlike fx autowrap)."""
+    import torch
+    import torch.nn as nn
+    from torch import fx
+
+    graph = fx.Graph()
+    tracer = fx.proxy.GraphAppendingTracer(graph)
+    root = m[0] if isinstance(m, nn.Sequential) and prog.get("root") == "sequential" else m
+    prefix = "0." if root is not m else ""
+
+    class PView:
+        def __init__(self, mod: Any, path: str) -> None:
+            object.__setattr__(self, "_mod", mod)
+            object.__setattr__(self, "_path", path)
+
+        def __getattr__(self, name: str) -> Any:
+            val = getattr(self._mod, name)
+            path = f"{self._path}{name}"
+            if isinstance(val, torch.Tensor):
+                return fx.Proxy(graph.get_attr(prefix + path), tracer)
+            if isinstance(val, nn.Module):
+                return PView(val, path + ".")
+            return val
+
+    base = Semantics()
+
+    class ProxySemantics(Semantics):
+        def call(self, key: str, args: Tuple[Any, ...], kwargs: Dict[str, Any], ctx: Dict[str, Any]) -> Any:
+            fn = base.fn(key)
+            if key.startswith(("F.", "U.")) or key == "torch.matmul":
+                return tracer.create_proxy("call_function", fn, args, kwargs)
+            return fn(*args, **kwargs)
+
+    import inspect
+
+    names = list(inspect.signature(root.forward).parameters)
+    inputs_ = [fx.Proxy(graph.placeholder(n), tracer) for n in names]
+    out = Interp(dict(prog, root="container"), PView(root, ""), ProxySemantics()).run(*inputs_)
+    graph.output(out.node if isinstance(out, fx.Proxy) else tuple(o.node for o in out))
+    graph.lint()
+    return fx.GraphModule(m, graph)
